@@ -10,7 +10,7 @@ def H(name, fn, twins=(), **kw):
     return d
 
 SUBSIDY = [s for s in P31["slices"] if s["name"] == "GetBlockSubsidy"]
-SLICES = TXSLICES + T.CONSTS + [T.HAVEINPUTS, T.GETVALUEOUT, T.CHECKTXINPUTS, T.FRAG_TXINPUTS_CALL, T.FRAG_FEES, T.FRAG_CBLIMIT] + SUBSIDY
+SLICES = TXSLICES + T.CONSTS + T.FUNCS + [T.FRAG_TXINPUTS_CALL, T.FRAG_FEES, T.FRAG_CBLIMIT] + SUBSIDY
 REASONS = ["bad-txns-inputs-missingorspent", "bad-txns-premature-spend-of-coinbase", "bad-txns-inputvalues-outofrange", "bad-txns-in-belowout", "bad-txns-fee-outofrange",
            "bad-txns-nonfinal", "bad-txns-accumulated-fee-outofrange", "bad-cb-amount"]
 PLAN = {
@@ -26,6 +26,7 @@ PLAN = {
         {"name": "h_lemma_block_step", "replace": ["ConnectBlock_txinputs_call", "ConnectBlock_fee_accumulation", "ConnectBlock_coinbase_limit"],
          "twins": [{"define": "TWIN_LEMMA", "expect": "assertion"}]},
     ],
+    "native": T.NATIVE,
     "not_covered": ["UTXO-set bookkeeping (UpdateCoins / SpendCoin / AddCoin / undo) and reorgs: the total-value clause is reduced to the per-block step proved here, its summation over the chain is by hand",
                     "that ConnectBlock runs these statement ranges for every transaction of every connected block (loop structure between the fragments)",
                     "subsidy schedule itself: C31"],
